@@ -2,7 +2,7 @@
 import ast
 
 from ..front import AnalysisError, src_of
-from ..values import Const, Obj
+from ..values import Const, Obj, Opaque
 from ..table import ORDER
 from ..session import cval, BGP_Q
 from . import common
@@ -60,6 +60,9 @@ def check(prog, rep, tier):
                       'or configuration state (registries are filled by decorators at import only)')
     rep.rule('R10.e', 'clean close: once the session is Idle (closed, restart pending) further input in the same '
                       'chunk produces no message, no second close and no state change')
+    rep.rule('R10.j', 'at most one report per message: no except clause of parse_buffer calls an application handler')
+    rep.rule('R10.i', 'the Data field of every NOTIFICATION the agent builds is a byte string (a decoded integer handed over '
+                      'as data makes the constructor raise inside the error handler)')
     rep.rule('R10.h', 'a header that violates the framing rules (marker, length outside [19,4096], unknown type) is '
                       'answered at once in every state; no header is left undecided (waiting for octets that a '
                       'bogus length announces)')
@@ -190,6 +193,54 @@ def check(prog, rep, tier):
                 found='no path delivers a decoded UPDATE', key='update-path')
     else:
         rep.ok('R10.c', 'update-path', file=PROTO)
+
+    # ---------------------------------------------------------------- R10.j
+    pbf = prog.func('yabgp.core.protocol.BGP.parse_buffer')
+    rep_in_handler = []
+    nh_ = 0
+    for t_ in [n for n in ast.walk(pbf.node) if isinstance(n, ast.Try)]:
+        for h_ in t_.handlers:
+            nh_ += 1
+            for c_ in ast.walk(ast.Module(body=h_.body, type_ignores=[])):
+                if isinstance(c_, ast.Call) and src_of(c_.func).startswith('self.handler.'):
+                    rep_in_handler.append((h_, c_))
+    if rep_in_handler:
+        h_, c_ = rep_in_handler[0]
+        rep.bad('R10.j', 'report-in-except', file=pbf.file, line=c_.lineno, func=pbf.qualname,
+                found='%s is called from an except clause of parse_buffer: when the exception came from the application '
+                      'callback itself (after it was handed the message) the same message is reported a second time'
+                      % src_of(c_.func), expected='one report per message: handlers of parse_buffer only log / tell the FSM',
+                key='report-in-except')
+    else:
+        rep.ok('R10.j', 'report-in-except', file=pbf.file, line=pbf.node.lineno, found='%d except clauses' % nh_)
+
+    # ---------------------------------------------------------------- R10.i
+    from ..values import BytesV as _BytesV
+    seen_i = {}
+    ndata = 0
+    for (ev, state), rows in sorted(tab.rows.items()):
+        for r in rows:
+            for e in r.events:
+                if e[0] != 'enter_send' or e[1] != 'send_notification':
+                    continue
+                args, kw = e[2], e[3]
+                d = kw.get('data', args[2] if len(args) > 2 else None)
+                ndata += 1
+                ok_ = d is None or isinstance(d, _BytesV) or (isinstance(d, Const) and isinstance(d.value, bytes)) or \
+                    (isinstance(d, Opaque) and (d.kind == 'bytes' or d.d == 'data'))
+                name = 'notification-data:%s@%s' % (ev if ev != 'WIRE' else 'WIRE:' + r.wire['cls'], state)
+                if ok_:
+                    continue
+                if seen_i.get(name) != 'bad':
+                    seen_i[name] = 'bad'
+                    rep.bad('R10.i', name, file=PROTO, line=common.row_line(r), func=common.row_func(r),
+                            found='the Data handed to send_notification is %s, not a byte string: Notification.construct '
+                                  'raises TypeError inside the FSM handler, so no NOTIFICATION is written and the error '
+                                  'close does not happen' % (d.desc() if hasattr(d, 'desc') else d),
+                            expected='bytes', key=name, path=r.describe())
+    if not seen_i:
+        rep.ok('R10.i', 'notification-data', found='%d NOTIFICATION sends, data is bytes in all' % ndata)
+    rep.floor('R10.i', 'NOTIFICATION sends', ndata, 500)
 
     # ---------------------------------------------------------------- R10.h
     from .. import profile as P
